@@ -484,12 +484,23 @@ class CallMixin:
             raise Unsupported("call of .at[...]")
         raise Unsupported(f"call of {type(f).__name__}")
 
+    def pack_args(self, args):
+        """positional arguments (possibly ending in an opaque star) as one U term denoting the argument tuple"""
+        args = list(args)
+        if args and isinstance(args[-1], StarOpaqueT):
+            tail = args.pop().v
+            if isinstance(tail, TupleT):
+                return self.to_u(TupleT(tuple(args) + tail.head, tail.tail))
+            return self.to_u(TupleT(tuple(args), tail.t)) if args else tail.t
+        return self.to_u(tuple(args))
+
     def call_opaque(self, f, args, kwargs):
-        """application of an opaque pure function (A3)"""
-        ts = [self.to_u(a) if not isinstance(a, StarOpaqueT) else self.to_u(a.v) for a in args]
-        ts += [self.to_u(kwargs[k]) for k in sorted(kwargs)]
-        fn = self.ctx.fn(f"apply{len(ts)}" + "".join("_" + k for k in sorted(kwargs)), *([U] * (1 + len(ts))), U)
-        return UVal(fn(f.t, *ts))
+        """application of an opaque pure function (A3): apply(f, argument tuple[, keyword dict])"""
+        at = self.pack_args(args)
+        if kwargs:
+            fn = self.ctx.fn("apply_kw", U, U, U, U)
+            return UVal(fn(f.t, at, self.to_u(kwargs)))
+        return UVal(self.ctx.fn("apply", U, U, U)(f.t, at))
 
     def call_method(self, o, name, args, kwargs):
         m = self.getattr(o, name)
